@@ -38,7 +38,7 @@ FM = ["B", "H", "I", "Q", "b", "h", "i", "q"]
 
 def plan(tier, seed):
     if tier == "quick":
-        return [dict(seed=seed, shard=i, n=40) for i in range(16)]
+        return [dict(seed=seed, shard=i, n=200) for i in range(16)]
     return [dict(seed=seed, shard=i, n=500) for i in range(32)]
 
 
